@@ -204,6 +204,41 @@ def dispatch (env : Env) (j : Json) : Json :=
     match Record.fromLine C (txt ((getStr? j "line").getD "")) names (schemeOf env j) (getNat? j "lineno") (modeOf j) with
     | .ok (r, logs) => Json.mkObj [("rec", recordJson C env r), ("logs", logsJson logs)]
     | .error e => Json.mkObj [("exc", Json.str (errName e))]
+  | some "rec.edit" =>
+    let keyOf (j : Json) : Key :=
+      match getStr? j "t" with
+      | some "name" => .name (txt ((getStr? j "v").getD ""))
+      | some "int" => .int ((getInt? j "v").getD 0)
+      | some "col" => .column { cls := "MafColumnRecord", key := txt ((getStr? j "key").getD ""), value := .atom .none, index := none }
+      | some "none" => .none
+      | _ => .other
+    let colOf (j : Json) (oid : Nat) : RCol :=
+      { oid := oid, col := { cls := "MafColumnRecord", key := txt ((getStr? j "key").getD ""),
+                             value := .atom (.str (txt ((getStr? j "value").getD ""))), index := getInt? j "index" } }
+    let obs (r : Record) : Json := Json.mkObj [
+      ("len", Json.num r.slots.length),
+      ("keys", Json.arr (r.keys.map (fun k => match k with | some t => jtxt t | none => Json.null)).toArray),
+      ("dict", Json.arr (r.dict.map (fun p => Json.arr #[jtxt p.1, Json.num p.2.oid,
+          match p.2.col.index with | some i => Json.num (Lean.JsonNumber.fromInt i) | none => Json.null])).toArray),
+      ("slots", Json.arr (r.slots.map (fun s => match s with
+          | some c => Json.arr #[jtxt c.col.key, Json.num c.oid,
+              match c.col.index with | some i => Json.num (Lean.JsonNumber.fromInt i) | none => Json.null]
+          | none => Json.null)).toArray)]
+    let step (acc : Record × List Json × Nat) (o : Json) : Record × List Json × Nat :=
+      let (r, outs, n) := acc
+      let kind := (getStr? o "k").getD ""
+      let colJ := (o.getObjVal? "col").toOption.getD Json.null
+      let keyJ := (o.getObjVal? "key").toOption.getD Json.null
+      let (r', res) : Record × Except PyErr Unit :=
+        if kind == "set" then r.setItem (keyOf keyJ) (colOf colJ n)
+        else if kind == "add" then
+          let c := colOf colJ n
+          r.setItem (.name c.col.key) c
+        else r.delItem (keyOf keyJ)
+      let out := Json.mkObj [("exc", match res with | .ok () => Json.null | .error e => Json.str (errName e)), ("obs", obs r')]
+      (r', outs ++ [out], n + 1)
+    let (_, outs, _) := (getArr j "ops").foldl step (({} : Record), [], 0)
+    Json.mkObj [("steps", Json.arr outs.toArray)]
   | some "spec.domain" =>
     let S : Spec.SCtx := { enums := Generated.enums, H := floatHostOf j }
     let ty : Option Spec.ColType := match getStr? j "cls" with
